@@ -1,0 +1,139 @@
+//go:build verif
+
+// Verification shim for property C14 (prepared statements).  Add-only, compiled only with the build
+// tag "verif".  It re-exports internal/lru for an external harness, exposes preparedLRU.keyFor, and
+// gives a read-only snapshot of a session's prepared-statement cache plus a way to install the
+// cache's own OnEvicted callback.  No driver logic lives here.
+
+package gocql
+
+import (
+	"github.com/gocql/gocql/internal/lru"
+)
+
+// VerifC14KV is one cache entry with an integer value.
+type VerifC14KV struct {
+	Key string
+	Val int64
+}
+
+// VerifC14LRU wraps a real lru.Cache holding int64 values and records its OnEvicted calls.
+type VerifC14LRU struct {
+	c       *lru.Cache
+	evicted []VerifC14KV
+}
+
+// VerifC14NewLRU returns lru.New(max), or the zero value &lru.Cache{MaxEntries: max} when zeroValue is set.
+func VerifC14NewLRU(max int, zeroValue bool) *VerifC14LRU {
+	l := &VerifC14LRU{}
+	if zeroValue {
+		l.c = &lru.Cache{MaxEntries: max}
+	} else {
+		l.c = lru.New(max)
+	}
+	l.c.OnEvicted = func(key string, value interface{}) {
+		l.evicted = append(l.evicted, VerifC14KV{key, value.(int64)})
+	}
+	return l
+}
+
+func (l *VerifC14LRU) Add(key string, v int64) { l.c.Add(key, v) }
+func (l *VerifC14LRU) Get(key string) (int64, bool) {
+	v, ok := l.c.Get(key)
+	if !ok {
+		return 0, false
+	}
+	return v.(int64), true
+}
+func (l *VerifC14LRU) Remove(key string) bool { return l.c.Remove(key) }
+func (l *VerifC14LRU) RemoveOldest()          { l.c.RemoveOldest() }
+func (l *VerifC14LRU) Len() int               { return l.c.Len() }
+
+// TakeEvicted returns and clears the OnEvicted calls made since the last call.
+func (l *VerifC14LRU) TakeEvicted() []VerifC14KV {
+	e := l.evicted
+	l.evicted = nil
+	return e
+}
+
+// Entries lists the cache from front to back.
+func (l *VerifC14LRU) Entries() []VerifC14KV {
+	keys, vals := l.c.VerifEntries()
+	out := make([]VerifC14KV, len(keys))
+	for i := range keys {
+		out[i] = VerifC14KV{keys[i], vals[i].(int64)}
+	}
+	return out
+}
+
+// VerifC14KeyFor is preparedLRU.keyFor.
+func VerifC14KeyFor(hostID, keyspace, statement string) string {
+	return (&preparedLRU{}).keyFor(hostID, keyspace, statement)
+}
+
+// VerifC14Flight describes one entry of session.stmtsLRU.
+type VerifC14Flight struct {
+	Key    string
+	Obj    interface{} // the *inflightPrepare (identity only)
+	Done   bool        // flight.done is closed
+	HasErr bool        // only meaningful when Done
+	Err    error
+	HasPS  bool // flight.preparedStatment != nil (only meaningful when Done)
+	ID     []byte
+	Count  int // request.actualColCount
+}
+
+func verifC14Describe(key string, val interface{}) VerifC14Flight {
+	f := VerifC14Flight{Key: key, Obj: val}
+	ifp, ok := val.(*inflightPrepare)
+	if !ok {
+		return f
+	}
+	select {
+	case <-ifp.done:
+		f.Done = true
+		f.HasErr = ifp.err != nil
+		f.Err = ifp.err
+		if ifp.preparedStatment != nil {
+			f.HasPS = true
+			f.ID = copyBytes(ifp.preparedStatment.id)
+			f.Count = ifp.preparedStatment.request.actualColCount
+		}
+	default:
+	}
+	return f
+}
+
+// VerifC14Snapshot lists session.stmtsLRU from front to back (taken under the cache's mutex).
+func VerifC14Snapshot(s *Session) []VerifC14Flight {
+	p := s.stmtsLRU
+	p.mu.Lock()
+	defer p.mu.Unlock()
+	keys, vals := p.lru.VerifEntries()
+	out := make([]VerifC14Flight, len(keys))
+	for i := range keys {
+		out[i] = verifC14Describe(keys[i], vals[i])
+	}
+	return out
+}
+
+// VerifC14OnEvicted installs fn as the OnEvicted callback of the session's prepared-statement cache
+// (lru.Cache's own hook; it runs inside the cache's critical sections).
+func VerifC14OnEvicted(s *Session, fn func(f VerifC14Flight)) {
+	p := s.stmtsLRU
+	p.mu.Lock()
+	defer p.mu.Unlock()
+	if fn == nil {
+		p.lru.OnEvicted = nil
+		return
+	}
+	p.lru.OnEvicted = func(key string, value interface{}) { fn(verifC14Describe(key, value)) }
+}
+
+// VerifC14MaxEntries is the capacity the session's cache was created with.
+func VerifC14MaxEntries(s *Session) int {
+	p := s.stmtsLRU
+	p.mu.Lock()
+	defer p.mu.Unlock()
+	return p.lru.MaxEntries
+}
